@@ -45,7 +45,10 @@ func el(space, local string, attrs ...string) xml.StartElement {
 
 func runC07(rc *RC) {
 	ch := rc.Ch
-	opts := E2Opts{Chunk: ch.Chance("workload", 1, 2)}
+	opts := E2Opts{Chunk: ch.Chance("workload", 1, 2), S2S: ch.Chance("workload", 1, 4)}
+	if !opts.S2S && ch.Chance("workload", 1, 4) {
+		opts.WS = true
+	}
 	strat := rc.S.ConfigureStrategy()
 	e := rc.NewE2(opts)
 	if e == nil {
@@ -84,6 +87,8 @@ func runC07(rc *RC) {
 		fmt.Fprintf(&sb, "<%s", in.kind)
 		if in.kind == "ctl" {
 			sb.WriteString(` xmlns="urn:verif:nonza"`) // a foreign-namespace top-level element
+		} else if opts.WS {
+			sb.WriteString(` xmlns="jabber:client"`)
 		}
 		if in.typ != "" {
 			fmt.Fprintf(&sb, ` type="%s"`, in.typ)
@@ -105,11 +110,11 @@ func runC07(rc *RC) {
 	for _, in := range ins {
 		hasCollide = hasCollide || in.collide
 	}
-	rc.Describe("strategy=%s chunk=%v variant=%d n=%d collide=%v", strat, opts.Chunk, variant, nIn, hasCollide)
+	rc.Describe("strategy=%s s2s=%v ws=%v chunk=%v variant=%d n=%d collide=%v", strat, opts.S2S, opts.WS, opts.Chunk, variant, nIn, hasCollide)
 	for _, in := range ins {
 		rc.Describe("%s", in.xml)
 	}
-	rc.CaseKey = fmt.Sprint(variant, hasCollide)
+	rc.CaseKey = fmt.Sprint(variant, hasCollide, opts.S2S, opts.WS)
 	byIdx := func(start *xml.StartElement, r xml.TokenReader) *c07In {
 		// the payload's n attribute identifies the stanza even without an id
 		for {
@@ -267,10 +272,14 @@ func runC07(rc *RC) {
 		}
 		if hasCollide {
 			simrt.Sleep(200 * time.Millisecond)
-			e.PeerWrite(`<iq type="result" id="r1"><done xmlns="urn:verif"/></iq>`)
+			nsd := ""
+			if opts.WS {
+				nsd = ` xmlns="jabber:client"`
+			}
+			e.PeerWrite(`<iq` + nsd + ` type="result" id="r1"><done xmlns="urn:verif"/></iq>`)
 		}
 		simrt.Sleep(100 * time.Millisecond)
-		e.PeerWrite(closeTag)
+		e.PeerWrite(e.CloseTag())
 		peerDone = true
 	})
 	st := rc.S.Run(func() bool { return e.ServeDone && peerDone && reqDone }, 60000, time.Minute)
@@ -279,7 +288,7 @@ func runC07(rc *RC) {
 	}
 	_ = reqErr
 	// ---- oracle over the wire ----
-	w := ParseWire(e.SUT.Out().Tap)
+	w := e.ParseOut()
 	if w.Err != nil {
 		rc.Failf("C07.c1", "malformed-output", "output not well-formed: %v", w.Err)
 	}
